@@ -131,6 +131,40 @@ pub fn gen_c02(r: &mut Rng, id: usize, _thorough: bool) -> Group {
         g.labels.push("kind:computed-edge".into());
         return g;
     }
+    if r.below(12) == 0 {
+        // runs of rows that jawk's `==` calls equal although they are different values (member order; an integer next to the
+        // double it rounds to; -0 next to 0 is left to C10's exclusions): every row must still be printed as ITS value
+        let members = [("a", "1"), ("b", "\"x\""), ("c", "[1,2]"), ("d", "null")];
+        let k = r.range(2, 4);
+        let base: Vec<(&str, &str)> = members[..k].to_vec();
+        let mut perm = base.clone();
+        perm.reverse();
+        let obj = |m: &[(&str, &str)]| format!("{{{}}}", m.iter().map(|(k, v)| format!("\"{k}\":{v}")).collect::<Vec<_>>().join(","));
+        let pairs: Vec<(String, String)> = vec![
+            (obj(&base), obj(&perm)),
+            ("18446744073709551615".into(), "18446744073709551616".into()),
+            ("18446744073709551616".into(), "18446744073709551615".into()),
+            (format!("[{}]", obj(&base)), format!("[{}]", obj(&perm))),
+            ("[18446744073709551615,1]".into(), "[18446744073709551616,1]".into()),
+        ];
+        let mut text = String::new();
+        for _ in 0..r.range(1, 3) {
+            let (a, b) = r.pick(&pairs).clone();
+            for x in [&a, &b, &a, &a, &b] {
+                text.push_str(x);
+                text.push('\n');
+            }
+        }
+        let vals: Vec<V> = text.lines().map(|l| crate::value::strict_parse(l.as_bytes()).expect("generated row")).collect();
+        let mut c = base_case(format!("C02-{id}-equal-neighbours"));
+        c.sources.push(stdin_src(text.into_bytes()));
+        c.spec.jstyle = match r.below(4) { 0 => None, 1 => Some("one-line".into()), 2 => Some("consise".into()), _ => Some("pretty".into()) };
+        let mut g = Group::new(vec![c]);
+        g.values = vals;
+        g.nontrivial = true;
+        g.labels.push("kind:equal-neighbours".into());
+        return g;
+    }
     let utf8 = r.chance(50);
     // astral characters only with --utf8-strings (without it: known finding F3)
     let o = GenOpts { astral: utf8, ..Default::default() };
